@@ -95,6 +95,32 @@ P = {
         "driver); the theorems hold for every instantiation. The chrono deserialize_as_* helpers are covered under C11.",
    technique="Coq proof (iteration-state invariant, permutation lemmas, conversion table) + extracted-model correspondence through the public API",
    design_ref="5/C09"),
+ "C14": dict(claimed=True,
+   text="Coq theorems over Col26.v/Ptg.v: bijective base-26 letters (injective, inverse) for every column, push_column = letters for all "
+        "col < 2^32, push_cell_ref puts $ exactly on absolute components, A1 round trip with the exact no-overflow bound, and "
+        "C14_rpn_correct_xls / _xlsb: for every well-formed formula AST (all reference kinds x 4 flag combinations, 3-D, names, "
+        "literals, unary/binary operators, parentheses, fixed- and variable-arity functions, AttrSum) outside the known classes "
+        "parse_formula (frame (encode e)) = Ok (render e), by stack-machine induction with exact fuel; formula_positions via "
+        "from_sparse_spec. FTAB/FTAB_ARGC are regenerated from src/utils.rs on every run (tools/gen_tables.py) and proved equal to a "
+        "frozen reference copy (regression pin). Known classes K_STR_WIDE (F21), K_STR_QUOTE with vm_compute refutations. "
+        "Tie: hooks push_column / both parse_formula / xlsx A1 helpers (exhaustive column sweep, random ASTs, malformed rgce with "
+        "panic prediction) and generated .xls files through worksheet_formula.",
+   note=TB + " f64 display is a Section variable; xlsx/ods stored-text formulas and xlsb record-level positions are tied end to end only; "
+        "parse_defined_names (xls) is not modelled. Table translator: tools/gen_tables.py (fail-closed regex extraction).",
+   technique="Coq proof (stack-machine induction, base-26 arithmetic) + regenerated tables + extracted-model correspondence",
+   design_ref="5/C14"),
+ "C18": dict(claimed=True,
+   text="Coq theorems over Ovba.v/OvbaDir.v: C18_decompress_inverts_encode — for every list of valid chunks (raw chunks; any mixture of "
+        "literal and copy tokens within the MS-OVBA limits; any number of chunks) decompress (ovba_encode cs) = concat (map sem cs), "
+        "unbounded induction over chunks, flag groups and tokens with stated fuel; copy-token codec proved arithmetically per bit "
+        "count, bit count = max 4 ceil(log2 d), overlapping copy = bytewise copy, never OutOfFuel on any input; dir-stream round "
+        "trip (code page, references of three kinds, modules), module content from the recorded offset, whole-project round trip, "
+        "module lookup. Known class nameless_reference. Tie: hook decompress_stream on extracted encodings under literal-only / "
+        "greedy / random / raw tokenisations and malformed containers (panic prediction), VbaProject::new and vba_project() on "
+        "generated containers.",
+   note=TB + " Code pages are a decoder parameter (theorems hold for every decoder); the order of get_module_names is not modelled.",
+   technique="Coq proof (induction over chunks/tokens, div/mod arithmetic for the token codec) + extracted-model correspondence",
+   design_ref="5/C18"),
 }
 REASON_TODO = "not claimed yet: model and theorems for this property are still being built (see DESIGN.md section 9)"
 
